@@ -138,6 +138,20 @@ PROPS["C16"] = dict(
     thorough_mult=20,
 )
 
+KX_ENTRIES = ["parse_dh_params", "parse_ec_parameters", "parse_ecdh_params", "parse_digitally_signed", "parse_digitally_signed_old",
+              "ECPoint::parse", "ECCurve::parse", "ExplicitPrimeContent::parse", "parse_content_and_signature_dh", "parse_content_and_signature_ecdh"]
+PROPS["C13"] = dict(
+    families=[("kx", 250)], corpus_entries=KX_ENTRIES, mutate_entries=KX_ENTRIES, mutate_budget=30, mutate_sources=300,
+    small_scope=[(e, [], 1, 4) for e in KX_ENTRIES[:8]] + [(e, [f], 1, 3) for e in KX_ENTRIES[8:] for f in (0, 1)] +
+                [("ECParametersContent::parse", [t], 1, 3) for t in range(0, 6)],
+    expect_entries=KX_ENTRIES, thorough_mult=20,
+)
+CT_ENTRIES = ["parse_ct_signed_certificate_timestamp", "parse_ct_signed_certificate_timestamp_list"]
+PROPS["C14"] = dict(
+    families=[("ct", 300)], corpus_entries=CT_ENTRIES, mutate_entries=CT_ENTRIES, mutate_budget=60, mutate_sources=300,
+    small_scope=[(e, [], 1, 4) for e in CT_ENTRIES], expect_entries=CT_ENTRIES, thorough_mult=20,
+)
+
 def _chain_oracle(cases, outs, binp, many, single):
     """C16: the multi-record parser returns exactly what repeated application of the single-record parser
     (of the implementation itself) returns; remainder starts at the first record that fails"""
